@@ -118,9 +118,16 @@ def run(ctx):
     # ---------------- K + S on single strings
     strs = ["", "a", "<&>\"'", "a\rb", "a\r\nb", "\r", "\n", "\t", " x ", "]]>", "&amp;", "&#13;", "\x01", "a\x0bb", "￿", "é", "\U0001f600"] + \
            [gen_string(rng) for _ in range(3000 if thorough else 500)]
-    sdocs = ["import qmluic.QtWidgets\nQWidget { QLabel { id: x; text: %s } QComboBox { id: y; model: [%s, \"z\"] } }\n" % (prog.qml_str(s), prog.qml_str(s)) for s in strs]
+    # every place a source string is written into the .ui: element text (plain, translatable, item, string list, pixmap, icon file, key sequence, tab
+    # attributes) and attribute values (icon theme)
+    SDOC = ("import qmluic.QtWidgets\nQWidget {\n  windowIcon.name: %(s)s\n  QLabel { id: x; text: %(s)s }\n  QComboBox { id: y; model: [%(s)s, \"z\"] }\n"
+            "  QLabel { id: p; pixmap: %(s)s }\n  QLabel { id: t; text: qsTr(%(s)s) }\n  QTextBrowser { id: sl; searchPaths: [%(s)s, \"z\"] }\n"
+            "  QToolButton { id: ic; icon.name: %(s)s; shortcut: %(s)s; icon.normalOff: %(s)s }\n"
+            "  QTabWidget { QWidget { id: pg; QTabWidget.title: %(s)s; QTabWidget.toolTip: %(s)s; QTabWidget.icon.name: %(s)s } }\n}\n")
+    NPLACES = 12
+    sdocs = [SDOC % {"s": prog.qml_str(s)} for s in strs]
     res = qml.run_docs(vh, sdocs)
-    terms = []
+    terms, aterms = [], []
     for s, d, r in zip(strs, sdocs, res):
         ok_chars = all(is_xml_char(c) for c in s)
         ctx.count(("str", s), len(s) > 0)
@@ -150,14 +157,31 @@ def run(ctx):
         got2 = combo.find("item").find("property").find("string").text or ""
         if got2 != s:
             ctx.violation("item string read back differs from the source: %r != %r" % (got2, s), {"case": s, "qml": d, "impl_output": got2})
+        # every other place
+        places = [(el.tag, el.text or "") for el in root.iter() if el.tag in ("string", "pixmap", "normaloff")] + [("@theme", el.get("theme")) for el in root.iter("iconset") if el.get("theme") is not None]
+        places = [pv for pv in places if pv[1] != "z" or s == "z"]
+        wrong = [pv for pv in places if pv[1] != s]
+        if wrong:
+            ctx.violation("a string read back from the .ui (%s) differs from the source: %r != %r" % (wrong[0][0], wrong[0][1], s),
+                          {"case": s, "qml": d, "impl_output": r["ui"], "theorem_or_correspondence": "C09_roundtrip / S"})
+        elif len(places) < NPLACES:
+            ctx.violation("the string appears in %d of the %d places it was bound to" % (len(places), NPLACES), {"case": s, "qml": d, "impl_output": r["ui"]})
         m = re.search(r'<widget class="QLabel" name="x">\s*<property name="text">\s*<string notr="true">(.*?)</string>', r["ui"], re.S)
         if m:
             terms.append(("(%s)%%N" % C.coq_list([str(ord(c)) for c in s]), "(%s)%%N" % C.coq_list([str(ord(c)) for c in m.group(1)])))
+        m = re.search(r'<iconset theme="([^"]*)">', r["ui"])
+        if m:
+            aterms.append(("(%s)%%N" % C.coq_list([str(ord(c)) for c in s]), "(%s)%%N" % C.coq_list([str(ord(c)) for c in m.group(1)])))
     if ctx.model_ok and terms:
         bad = C.coq_eval_mismatches("c09k", HEADER, terms, "nl_eqb", "escape_text", "list N * list N", shard_size=400)
         ctx.coverage["disagreements_model"] = len(bad)
         if bad and not ctx.violations:
             ctx.broke("K", "text writing (xmlutil.rs escaped_text) vs model/Xml.v escape_text", "written bytes differ from the model on %d strings, e.g. %s" % (len(bad), terms[bad[0]]))
+        bad = C.coq_eval_mismatches("c09a", HEADER, aterms, "nl_eqb", "escape_attr", "list N * list N", shard_size=400)
+        ctx.coverage["disagreements_model_attribute"] = len(bad)
+        ctx.coverage["attribute_values_compared"] = len(aterms)
+        if bad and not ctx.violations:
+            ctx.broke("K", "attribute writing (xmlutil.rs escaped_attribute) vs model/Xml.v escape_attr", "written bytes differ from the model on %d strings, e.g. %s" % (len(bad), aterms[bad[0]]))
     # ---------------- S on whole documents
     g = gdoc.DocGen(rng)
     documents = [gdoc.to_qml(g.document()) for _ in range(1500 if thorough else 250)]
